@@ -66,6 +66,27 @@ def cmdPatCanon (comp value proto : String) (args : List String) : String :=
   | "opaquepathname" => "ok " ++ hexs (canonicalizeOpaquePathname v)
   | "search" => "ok " ++ hexs (canonicalizeSearch v)
   | "hash" => "ok " ++ hexs (canonicalizeHash v)
+  | "p.protocol" =>
+    let pat := proto == "70"
+    let stripped := if v.getLast? == some 0x3A then v.dropLast else v
+    let probe := if pat then none else match AdaVerif.Model.ParseAgg.parseNoBaseA idna (stripped ++ AdaVerif.Model.PatternCanon.dummySuffix) with
+      | some a => findMarker idna (AdaVerif.Model.Agg.getHostname a)
+      | none => none
+    (match probe with
+     | some d => s!"need-idna {hexs d}"
+     | none => okOpt (processProtocol idna L v pat))
+  | "p.username" => "ok " ++ hexs (processUsername v (proto == "70"))
+  | "p.password" => "ok " ++ hexs (processPassword v (proto == "70"))
+  | "p.hostname" =>
+    (match processHostname idna 4294967295 v (proto == "70") with
+     | some h => (match (if proto == "70" then none else findMarker idna h) with
+        | some d => s!"need-idna {hexs d}"
+        | none => okOpt (processHostname idna L v (proto == "70")))
+     | none => okOpt (processHostname idna L v (proto == "70")))
+  | "p.search" => "ok " ++ hexs (processSearch v (proto == "70"))
+  | "p.hash" => "ok " ++ hexs (processHash v (proto == "70"))
+  | "p.port" => okOpt (processPort v (unhexs proto) (args.contains "T=p"))
+  | "p.pathname" => okOpt (processPathname L v (unhexs proto) (args.contains "T=p"))
   | "escpattern" => "ok " ++ hexs (AdaVerif.Model.PatternCanon.escapePatternString v)
   | "escregexp" => "ok " ++ hexs (AdaVerif.Model.PatternCanon.escapeRegexpString v)
   | "procbase" => "ok " ++ hexs (AdaVerif.Model.PatternCanon.processBaseUrlString v (unhexs proto == [0x70]))
